@@ -17,9 +17,10 @@ static const int KALG[NKEY] = { JWT_ALG_HS256, JWT_ALG_HS512, JWT_ALG_RS256, JWT
 static vh_key_t K[NKEY];
 static jwk_set_t *ring;			/* the one shared keyring */
 static const jwk_item_t *PRIV[NKEY], *PUB[NKEY];
-static char *TOK_OK[NKEY], *TOK_BAD[NKEY], *TOK_EXPIRED[NKEY];
+static char *TOK_OK[NKEY], *TOK_BAD[NKEY], *TOK_EXPIRED[NKEY], *TOK_KID[NKEY];
+static jwk_set_t *kidring;		/* second shared keyring: public keys with kid "k<i>", looked up from callbacks */
 
-typedef struct { int kind; int key; int variant; } op_t;	/* kind 0 generate, 1 verify; variant: token kind / claim variant */
+typedef struct { int kind; int key; int variant; } op_t;	/* kind 0 generate, 1 verify, 2 verify with a callback that finds the key by kid in the shared keyring */
 typedef struct { int rc; char *tok; struct timespec t0, t1; } result_t;
 typedef struct {
 	int id, nops;
@@ -52,6 +53,21 @@ static int is_deterministic(int alg)
 	return f == VH_FAM_HS || f == VH_FAM_RS || f == VH_FAM_ED;
 }
 
+static int kid_cb(jwt_t *jwt, jwt_config_t *cfg)
+{
+	jwt_value_t v;
+	const jwk_item_t *it;
+	jwt_set_GET_STR(&v, "kid");
+	if (jwt_header_get(jwt, &v) != JWT_VALUE_ERR_NONE) return 1;
+	it = jwks_find_bykid(kidring, v.str_val);
+	if (!it) return 1;
+	/* also walk the shared keyring the way an application would */
+	if (jwks_item_count(kidring) != NKEY || jwks_item_get(kidring, 0) == NULL || jwks_error_any(kidring)) return 1;
+	cfg->key = it;
+	cfg->alg = jwt_get_alg(jwt);
+	return 0;
+}
+
 static void run_op(const op_t *op, result_t *res, int thread_id, int opno)
 {
 	clock_gettime(CLOCK_MONOTONIC, &res->t0);
@@ -70,6 +86,14 @@ static void run_op(const op_t *op, result_t *res, int thread_id, int opno)
 			res->tok = jwt_builder_generate(b);
 			res->rc = res->tok ? 0 : 1;
 			jwt_builder_free(b);
+		} else res->rc = 1;
+	} else if (op->kind == 2) {
+		jwt_checker_t *c = jwt_checker_new();
+		res->tok = NULL;
+		if (c) {
+			jwt_checker_setcb(c, kid_cb, NULL);
+			res->rc = jwt_checker_verify(c, op->variant % 3 == 1 ? TOK_BAD[op->key] : TOK_KID[op->key]) ? 1 : 0;
+			jwt_checker_free(c);
 		} else res->rc = 1;
 	} else {
 		jwt_checker_t *c = jwt_checker_new();
@@ -125,6 +149,15 @@ int main(int argc, char **argv)
 		TOK_BAD[k] = vh_ref_token(&K[k], KALG[k], hdr, "{\"iss\":\"c18\",\"exp\":1700009999,\"x\":1}");
 		{ size_t l = strlen(TOK_BAD[k]); TOK_BAD[k][l - 4] = TOK_BAD[k][l - 4] == 'A' ? 'B' : 'A'; }
 		TOK_EXPIRED[k] = vh_ref_token(&K[k], KALG[k], hdr, "{\"iss\":\"c18\",\"exp\":1600000000}");
+		{
+			char kid[16], *jwk, hk[96];
+			snprintf(kid, sizeof(kid), "k%d", k);
+			jwk = vh_key_jwk(&K[k], K[k].kind == VH_K_OCT, NULL, kid, NULL);
+			kidring = jwks_load(kidring, jwk);
+			free(jwk);
+			snprintf(hk, sizeof(hk), "{\"alg\":\"%s\",\"kid\":\"%s\"}", vh_alg_name(KALG[k]), kid);
+			TOK_KID[k] = vh_ref_token(&K[k], KALG[k], hk, "{\"iss\":\"c18\"}");
+		}
 	}
 	for (int rep = 0; rep < repeats; rep++) {
 		thr_t *T = calloc((size_t)nthr, sizeof(*T));
@@ -140,7 +173,7 @@ int main(int argc, char **argv)
 				/* few keys per repeat so that threads collide on the same items */
 				int k = (int)vh_below(&rng, NKEY);
 				if (vh_below(&rng, 3)) k = (rep * 2 + (int)vh_below(&rng, 3)) % NKEY;
-				T[t].ops[i] = (op_t){ (int)vh_below(&rng, 2), k, (int)vh_below(&rng, 6) };
+				T[t].ops[i] = (op_t){ (int)vh_below(&rng, 3), k, (int)vh_below(&rng, 6) };
 			}
 		}
 		/* sequential baseline (no injected delays) */
@@ -191,8 +224,8 @@ int main(int argc, char **argv)
 		}
 		free(T); free(tid);
 	}
-	jwks_free(ring);
-	for (int k = 0; k < NKEY; k++) { free(TOK_OK[k]); free(TOK_BAD[k]); free(TOK_EXPIRED[k]); vh_key_free(&K[k]); }
+	jwks_free(ring); jwks_free(kidring);
+	for (int k = 0; k < NKEY; k++) { free(TOK_OK[k]); free(TOK_BAD[k]); free(TOK_EXPIRED[k]); free(TOK_KID[k]); vh_key_free(&K[k]); }
 	printf("[\"END\"]\n");
 	return 0;
 }
